@@ -199,7 +199,8 @@ def r12_opaque(body, begin, end, replace, log, name='', include_end=True, nth=No
         raise ExtractError(f"R12 anchor lost or ambiguous (begin): {begin!r}")
     if end == '@block':
         mb = mask(body)
-        o = mb.index('{', i)
+        # the block opened by the brace that ENDS the anchor, else by the first brace after the anchor's start
+        o = i + len(begin.rstrip()) - 1 if begin.rstrip().endswith('{') else mb.index('{', i)
         j = match_close(mb, o) + 1
     else:
         j = body.find(end, i + len(begin))
